@@ -416,6 +416,16 @@ def _reuse_cases(rng, T):
         sa, sb = txgen.ref_ser(ta), txgen.ref_ser(tb)
         out.append(case("collide-%s-%s-deser-pair" % (name, kind), "deser_seq", [sa, sb + sa[-4:], sa]))
         out.append(case("collide-%s-%s-ser-pair" % (name, kind), "ser_seq", [ta, tb, ta]))
+    # one-field-apart pairs in one process (t, t', t): parse and serialise; a memo keyed by a strict subset of the fields
+    # of a transaction / input / output hands out the other one's bytes or fields
+    for sw in (True, False):
+        for _ in range(6 if T else 2):
+            t = txgen.gen_tx(rng, n_in=rng.choice([1, 2, 3]), n_out=rng.choice([1, 2]), segwit=sw)
+            st = txgen.ref_ser(t)
+            for name, t2 in txgen.one_field_variants(rng, t):
+                k = "segwit" if sw else "legacy"
+                out.append(case("one-field-apart-%s-%s-deser" % (name, k), "deser_seq", [st, txgen.ref_ser(t2) + st[-3:], st]))
+                out.append(case("one-field-apart-%s-%s-ser" % (name, k), "ser_seq", [t, t2, t]))
     # repeated elements through the byte-level builder and the command line
     i0 = txgen.ref_txin(txgen.gen_txin(rng, 2))
     o0 = txgen.ref_txout(txgen.gen_txout(rng, 3))
